@@ -17,6 +17,7 @@ import (
 	"github.com/atlassian/gostatsd"
 	"github.com/atlassian/gostatsd/internal/verif/vsched"
 	"github.com/atlassian/gostatsd/internal/verif/vtime"
+	"github.com/atlassian/gostatsd/pkg/stats"
 )
 
 func init() {
@@ -40,6 +41,9 @@ func NewClock(ctx context.Context) (context.Context, *clock.Mock) {
 	m := clock.NewMock(Epoch)
 	w := vtime.Wrap(m)
 	vsched.EnvSet("clock", w)
+	// a fresh statser per execution: the package-level default NullStatser carries a flush-notifier
+	// (lock + registered channels) that would otherwise leak state from one execution into the next
+	ctx = stats.NewContext(ctx, stats.NewNullStatser())
 	return clock.Context(ctx, w), m
 }
 
